@@ -180,6 +180,10 @@ static void raw_post(struct mraw *r, int n)
 	if (n > 1000) vz_label(L_RAW_BIG_BURST);
 	vz_log("[T%d] raw post owner%d.raw%d x%d (t=%lu)", me, r->owner, r->idx, n, start);
 	vz_hash_u(0x200 + r->owner * 8 + r->idx); vz_hash_u(n);
+	if (!(fcntl(r->iv->event_wfd, F_GETFL) & O_NONBLOCK)) {
+		FAILP("C09", "post-on-blocking-descriptor", "iv_event_raw_post would write to descriptor %d, which is in blocking mode (a burst larger than its buffer blocks the poster)", r->iv->event_wfd);
+		fail_any("raw-post-on-blocking-descriptor", "raw event write descriptor %d is in blocking mode", r->iv->event_wfd);
+	}
 	sched_active = n > 64 ? 0 : sched_active;     /* long bursts run without yield points (they are the same call repeated) */
 	for (int k = 0; k < n; k++) iv_event_raw_post(r->iv);
 	sched_active = 1;
@@ -599,6 +603,7 @@ void target_run(void)
 	signal(SIGPIPE, SIG_IGN);
 	vk_reset();
 	vk_hooks.wait_block = hook_wait_block; vk_hooks.epoll_ctl_pre = hook_epoll_ctl_pre; vk_hooks.sysfault = hook_sysfault;
+	vk_hooks.io_pre = sched_io_pre; vk_hooks.io_post = sched_io_post;
 	vk_active = 1;
 	sched_on_deadlock = on_deadlock; sched_on_switch = on_switch; sched_on_idle = on_idle;
 	iv_set_fatal_msg_handler(fatal_handler);
